@@ -138,6 +138,47 @@ package unused
 //@   ensures  [wf]    len(g.nodes) >= 1 && wfGraph(g.nodes) && wfOwn(g.nodes)
 //@   ensures  [objs]  forall o types.Object :: {o in g.objects} (o in g.objects) ==> 0 <= g.objects[o] && g.objects[o] < len(g.nodes)
 
+// ---- merging serialized graphs: edges are only ever added ----
+// (value-semantic slices: the in-place rewrite of nodes[k].uses by the second pass is seen
+// through the loop copy n only; nodes is assumed not to share backing arrays between nodes)
+//@ ghost idsIn(m map[ObjectPath]NodeID, n int) bool = forall p ObjectPath :: {p in m} (p in m) ==> 0 <= m[p] && m[p] < n
+//@ ghost posIn(m map[token.Position]NodeID, n int) bool = forall p token.Position :: {p in m} (p in m) ==> 0 <= m[p] && m[p] < n
+//@ ghost hasUse(us []NodeID, v NodeID) bool = exists x int :: {us[x]} 0 <= x && x < len(us) && us[x] == v
+//@ func trace
+//@   trusted
+//@ func (*SerializedGraph).Merge
+//@   requires g != nil && wfGraph(g.nodes) && wfOwns(g.nodes)
+//@   requires (g.nodesByPath != nil ==> idsIn(g.nodesByPath, len(g.nodes))) && (g.nodesByPosition != nil ==> posIn(g.nodesByPosition, len(g.nodes)))
+//@   requires [ids]  forall k int :: {nodes[k]} 0 <= k && k < len(nodes) ==> 0 <= nodes[k].id && nodes[k].id < len(nodes)
+//@   requires [uses] forall k int, j int :: {nodes[k].uses[j]} 0 <= k && k < len(nodes) && 0 <= j && j < len(nodes[k].uses) ==> 0 <= nodes[k].uses[j] && nodes[k].uses[j] < len(nodes)
+//@   requires [owns] forall k int, j int :: {nodes[k].owns[j]} 0 <= k && k < len(nodes) && 0 <= j && j < len(nodes[k].owns) ==> 0 <= nodes[k].owns[j] && nodes[k].owns[j] < len(nodes)
+//@   may_panic
+//@   modifies g.nodes, g.nodesByPath, g.nodesByPosition
+//@   ensures  [wf]   len(g.nodes) >= 1 && len(g.nodes) >= len(old(g.nodes)) && wfGraph(g.nodes) && wfOwns(g.nodes)
+//@   ensures  [maps] g.nodesByPath != nil && g.nodesByPosition != nil && idsIn(g.nodesByPath, len(g.nodes)) && posIn(g.nodesByPosition, len(g.nodes))
+//@   ensures  [keep] forall a int, j int :: {old(g.nodes)[a].uses[j]} 0 <= a && a < len(old(g.nodes)) && 0 <= j && j < len(old(g.nodes)[a].uses) ==> j < len(g.nodes[a].uses) && g.nodes[a].uses[j] == old(g.nodes)[a].uses[j]
+//@   loop 1   index k
+//@   loop 1   modifies g.nodes, g.nodesByPath, g.nodesByPosition
+//@   loop 1   invariant [rm]   len(remapping) == len(nodes) && (forall i int :: {remapping[i]} 0 <= i && i < len(remapping) ==> 0 <= remapping[i] && remapping[i] < len(g.nodes))
+//@   loop 1   invariant [wf]   len(g.nodes) >= 1 && len(g.nodes) >= len(old(g.nodes)) && wfGraph(g.nodes) && wfOwns(g.nodes)
+//@   loop 1   invariant [maps] g.nodesByPath != nil && g.nodesByPosition != nil && idsIn(g.nodesByPath, len(g.nodes)) && posIn(g.nodesByPosition, len(g.nodes))
+//@   loop 1   invariant [keep] forall a int, j int :: {old(g.nodes)[a].uses[j]} 0 <= a && a < len(old(g.nodes)) && 0 <= j && j < len(old(g.nodes)[a].uses) ==> j < len(g.nodes[a].uses) && g.nodes[a].uses[j] == old(g.nodes)[a].uses[j]
+//@   loop 2   index k
+//@   loop 2   modifies g.nodes
+//@   loop 2   invariant [rm]   remapping == loopentry(remapping)
+//@   loop 2   invariant [wf]   len(g.nodes) == len(loopentry(g.nodes)) && wfGraph(g.nodes) && wfOwns(g.nodes)
+//@   loop 2   invariant [keep] forall a int, j int :: {loopentry(g.nodes)[a].uses[j]} 0 <= a && a < len(g.nodes) && 0 <= j && j < len(loopentry(g.nodes)[a].uses) ==> j < len(g.nodes[a].uses) && g.nodes[a].uses[j] == loopentry(g.nodes)[a].uses[j]
+//@   loop 2   invariant [edges] forall q int, j int :: {nodes[q].uses[j]} 0 <= q && q < k && 0 <= j && j < len(nodes[q].uses) ==> hasUse(g.nodes[remapping[nodes[q].id]].uses, remapping[nodes[q].uses[j]])
+//@   loop 2   invariant [oedges] forall q int, j int :: {nodes[q].owns[j]} 0 <= q && q < k && 0 <= j && j < len(nodes[q].owns) ==> hasUse(g.nodes[remapping[nodes[q].id]].owns, remapping[nodes[q].owns[j]])
+//@   loop 3   index i
+//@   loop 3   invariant [len]  len(n.uses) == len(loopentry(n.uses)) && n.id == loopentry(n.id) && n.owns == loopentry(n.owns)
+//@   loop 3   invariant [done] forall j int :: {n.uses[j]} {loopentry(n.uses)[j]} 0 <= j && j < i ==> n.uses[j] == remapping[loopentry(n.uses)[j]]
+//@   loop 3   invariant [rest] forall j int :: {n.uses[j]} i <= j && j < len(n.uses) ==> n.uses[j] == loopentry(n.uses)[j]
+//@   loop 4   index i
+//@   loop 4   invariant [len]  len(n.owns) == len(loopentry(n.owns)) && n.id == loopentry(n.id) && n.uses == loopentry(n.uses)
+//@   loop 4   invariant [done] forall j int :: {n.owns[j]} {loopentry(n.owns)[j]} 0 <= j && j < i ==> n.owns[j] == remapping[loopentry(n.owns)[j]]
+//@   loop 4   invariant [rest] forall j int :: {n.owns[j]} i <= j && j < len(n.owns) ==> n.owns[j] == loopentry(n.owns)[j]
+
 //@ prop C03
 
 // (*graph).stmt strips every enclosing label before the type switch; its default branch
